@@ -141,7 +141,7 @@ func oracleDelivery(sc *jScenario, tr *jTrace, checkReplay bool) (out []jv) {
 		switch {
 		case p.Ret == nil && !inLog:
 			out = append(out, jvf([]string{"publish_nil_but_not_accepted"}, "Publish(%s) returned nil but the message never reached Joe's loop", p.Msg.Token))
-		case errors.Is(p.Ret, sse.ErrProviderClosed) && inLog:
+		case (p.Ret == sse.ErrProviderClosed) && inLog:
 			out = append(out, jvf([]string{"publish_closed_but_accepted"}, "Publish(%s) returned ErrProviderClosed but the message was accepted and fanned out", p.Msg.Token))
 		}
 	}
@@ -512,7 +512,7 @@ func oracleSubscriberSafety(sc *jScenario, tr *jTrace) (out []jv) {
 			}
 		default:
 			logReliable := tr.HasRec && v.PanicAt < 0
-			closedOK := errors.Is(st.Ret, sse.ErrProviderClosed) && v.firstSDCall > 0 && v.firstSDCall < st.RetStamp && (!hasReg || !logReliable)
+			closedOK := (st.Ret == sse.ErrProviderClosed) && v.firstSDCall > 0 && v.firstSDCall < st.RetStamp && (!hasReg || !logReliable)
 			if st.Ret != nil && !closedOK {
 				out = append(out, jvf([]string{"subscribe_return_wrong"}, "subscriber %s ended through cancellation/shutdown but Subscribe returned %v", name, st.Ret))
 			}
@@ -544,10 +544,10 @@ func oracleReturns(sc *jScenario, tr *jTrace) (out []jv) {
 			if nilRet == 0 || sd.RetStamp < nilRet {
 				nilRet = sd.RetStamp
 			}
-		case errors.Is(sd.Ret, sse.ErrProviderClosed):
-		case errors.Is(sd.Ret, context.Canceled) && sd.Spec.Ctx == "cancelled":
+		case (sd.Ret == sse.ErrProviderClosed):
+		case (sd.Ret == context.Canceled) && (sd.Spec.Ctx == "cancelled" || sd.Spec.Ctx == "cancelled_cause"):
 			winners++
-		case errors.Is(sd.Ret, context.DeadlineExceeded) && strings.HasPrefix(sd.Spec.Ctx, "deadline:"):
+		case (sd.Ret == context.DeadlineExceeded) && (strings.HasPrefix(sd.Spec.Ctx, "deadline:") || strings.HasPrefix(sd.Spec.Ctx, "deadline_cause:")):
 			winners++
 			if sd.VRet < sd.VDeadline {
 				out = append(out, jvf([]string{"shutdown_return_wrong"}, "Shutdown returned DeadlineExceeded before its deadline"))
@@ -608,7 +608,7 @@ func oracleReturns(sc *jScenario, tr *jTrace) (out []jv) {
 		if !st.Returned {
 			continue
 		}
-		isClosed := errors.Is(st.Ret, sse.ErrProviderClosed)
+		isClosed := (st.Ret == sse.ErrProviderClosed)
 		if isClosed && !closedAllowed(st.RetStamp) {
 			out = append(out, jvf([]string{"closed_without_shutdown"}, "Subscribe(%s) returned ErrProviderClosed although no Shutdown had been called", st.Spec.Name))
 		}
@@ -623,7 +623,7 @@ func oracleReturns(sc *jScenario, tr *jTrace) (out []jv) {
 		if !p.Returned {
 			continue
 		}
-		isClosed := errors.Is(p.Ret, sse.ErrProviderClosed)
+		isClosed := (p.Ret == sse.ErrProviderClosed)
 		if isClosed && !closedAllowed(p.RetStamp) {
 			out = append(out, jvf([]string{"closed_without_shutdown"}, "Publish(%s) returned ErrProviderClosed although no Shutdown had been called", p.Msg.Token))
 		}
@@ -631,7 +631,7 @@ func oracleReturns(sc *jScenario, tr *jTrace) (out []jv) {
 			out = append(out, jvf([]string{"closed_required"}, "Publish(%s) was called after Shutdown had returned nil but returned %v", p.Msg.Token, p.Ret))
 		}
 		if len(p.Msg.Topics) == 0 {
-			if !errors.Is(p.Ret, sse.ErrNoTopic) {
+			if !(p.Ret == sse.ErrNoTopic) {
 				out = append(out, jvf([]string{"publish_return_wrong"}, "Publish without topics returned %v", p.Ret))
 			}
 			continue
@@ -666,10 +666,10 @@ func oraclePublishReturns(tr *jTrace) (out []jv) {
 				out = append(out, jvf([]string{"publish_return_wrong"}, "Publish(%s) was accepted (Put ok or panicked) but returned %v", p.Msg.Token, p.Ret))
 			}
 		default:
-			if p.Ret != nil && !errors.Is(p.Ret, sse.ErrProviderClosed) && !errors.Is(p.Ret, sse.ErrNoTopic) {
+			if p.Ret != nil && !(p.Ret == sse.ErrProviderClosed) && !(p.Ret == sse.ErrNoTopic) {
 				out = append(out, jvf([]string{"publish_return_wrong"}, "Publish(%s) returned %v", p.Msg.Token, p.Ret))
 			}
-			if errors.Is(p.Ret, sse.ErrProviderClosed) && (v.firstSDCall == 0 || v.firstSDCall > p.RetStamp) {
+			if (p.Ret == sse.ErrProviderClosed) && (v.firstSDCall == 0 || v.firstSDCall > p.RetStamp) {
 				out = append(out, jvf([]string{"closed_without_shutdown"}, "Publish(%s) returned ErrProviderClosed before any Shutdown was called", p.Msg.Token))
 			}
 		}
